@@ -22,7 +22,7 @@ fn spec(tier: Tier) -> CheckSpec {
 		property: "C13",
 		level: "exploration",
 		rule: "exhaustive: (objects) every 2-layer inheritance chain of the C02 generator (quick: 6 member kinds per name, thorough: all 12; both composition syntaxes; plain, hidden, unhidden, +:, self/super/$ references, object locals) and every 1-layer object, plus every 2-layer chain over the 5 plain kinds with std.objectRemoveKey applied between and/or after the layers, each passed to objectFields/objectFieldsAll/objectFieldsEx, objectHas/objectHasAll/objectHasEx for visible, hidden and absent keys, objectValues(All), objectKeysValues(All), std.get with and without default and inc_hidden, length, type, mapWithKey, objectRemoveKey followed by field listing, manifestation, objectHas/objectHasAll/get(inc_hidden=false) and re-definition of the key below and above the removed part, prune, equals with a re-layered copy; \
-			(patch) std.mergePatch over every (target, patch) pair of a 16-value set (null, numbers, {}, {a:1}, {a:null}, {a:{b:null}}, {a:{b:1,c:2}}, hidden fields, arrays, non-object targets) and nested once more; std.prune over trees with nested empties; (types) std.type, the std.is* predicates, std.length, equals/primitiveEquals/assertEqual, xor/xnor over all pairs of a 14-value set; (lazy) objects with a failing or diverging field through every function that must not force it. \
+			(patch) std.mergePatch over every (target, patch) pair of a 16-value set (null, numbers, {}, {a:1}, {a:null}, {a:{b:null}}, {a:{b:1,c:2}}, hidden fields, arrays, non-object targets) and nested once more; std.prune over trees with nested empties; (types) std.type, the std.is* predicates, std.length, equals/primitiveEquals/assertEqual, xor/xnor over all pairs of a 22-value set; (lazy) objects with a failing or diverging field through every function that must not force it. \
 			Oracle: reference definitions (harness/src/refstd.rs) on the reference object model. non-trivial = distinct call text with a reference verdict"
 			.into(),
 		assumptions: vec!["the reference object model and the transcribed definitions of mergePatch (RFC 7396 as in std.jsonnet), prune, get, mapWithKey are trusted".into()],
@@ -80,6 +80,13 @@ fn object_calls() -> Vec<(&'static str, Ex)> {
 		v.push(("objectRemoveKey", stdcall("get", vec![bin(removed(), BinOp::Add, lit(5.0)), s(k), s("dflt"), Ex::False])));
 		v.push(("objectRemoveKey", stdcall("objectFields", vec![bin(lit(0.0), BinOp::Add, removed())])));
 		v.push(("objectRemoveKey", bin(lit(0.0), BinOp::Add, removed())));
+		// the same key removed again from an object whose upper part already had it removed
+		let twice = || stdcall("objectRemoveKey", vec![bin(lit(0.0), BinOp::Add, removed()), s(k)]);
+		v.push(("objectRemoveKey", twice()));
+		v.push(("objectRemoveKey", stdcall("objectHasAll", vec![twice(), s(k)])));
+		v.push(("objectRemoveKey", stdcall("get", vec![twice(), s(k), s("dflt")])));
+		v.push(("objectRemoveKey", dot(bin(twice(), BinOp::Add, obj(vec![field(k, Vis::Normal, true, Ex::Arr(vec![s("top")]))])), k)));
+		v.push(("objectRemoveKey", bin(twice(), BinOp::Add, obj(vec![field("r", Vis::Normal, false, bin(s(k), BinOp::In, Ex::Super))]))));
 		v.push(("objectRemoveKey", bin(stdcall("objectRemoveKey", vec![o(), s(k)]), BinOp::Add, obj(vec![field("top", Vis::Normal, false, Ex::Arr(vec![bin(s(k), BinOp::In, Ex::Super)]))]))));
 	}
 	v
@@ -242,6 +249,12 @@ fn part_types(cx: &mut Ctx, journal: &Journal) {
 		obj(vec![]),
 		obj(vec![field("a", Vis::Normal, false, n(1.0))]),
 		obj(vec![field("a", Vis::Hidden, false, n(1.0))]),
+		// same number of visible fields, different visible names, a hidden stand-in for the other's visible field
+		obj(vec![field("a", Vis::Hidden, false, n(1.0)), field("b", Vis::Normal, false, n(1.0))]),
+		obj(vec![field("b", Vis::Normal, false, n(1.0))]),
+		obj(vec![field("b", Vis::Hidden, false, n(1.0)), field("a", Vis::Normal, false, n(1.0))]),
+		Ex::Arr(vec![obj(vec![field("a", Vis::Hidden, false, n(1.0)), field("b", Vis::Normal, false, n(1.0))])]),
+		Ex::Arr(vec![obj(vec![field("a", Vis::Normal, false, n(1.0))])]),
 		func(&["x"], var("x")),
 		dot(var("std"), "length"),
 	];
